@@ -7,6 +7,7 @@
 -/
 import TuModel.Lemmas.MetricsL
 import TuModel.Lemmas.GroupWordsL
+import TuModel.Lemmas.GroupWordsWithL
 import TuModel.Props.C10
 import TuModel.Props.C18
 namespace Tu.C13
@@ -198,6 +199,79 @@ theorem spellCounts_total (input pred target : List (List Nat)) (hi : CleanB inp
 example : groupWords [[97], sp, [98]] [[97], [98]] [0] = some [1, 0] := by decide
 example : groupWords [[97], [98]] [[97], sp, [98]] [0, 1] = some [0] := by decide
 example : groupWords [[97], sp, [98]] [[97]] [] = some [] := by decide
+
+/-! ### the spelling counts for GIVEN sub-results (the observed matchings / edit script)
+
+The correspondence check passes the matchings and the edit script the code actually computed to the model
+(`groupWordsWith`, `spellCountsWith`), after testing that they are admissible (`spellSubOk`).  The theorems say:
+the old function models are the new ones on the model's own sub-results, those are admissible, and the closing
+assertion of `_group_words` holds for EVERY admissible script. -/
+
+/-- the old function model is the new one applied to the model's own script -/
+theorem groupWords_eq_with (input pred : List (List Nat)) (matching : List Nat) :
+    groupWords input pred matching =
+      (editOperations { swap := false, sid := true } input pred).bind
+        (fun ops => groupWordsWith ops input pred matching) := by
+  unfold groupWords
+  cases editOperations { swap := false, sid := true } input pred with
+  | none => rfl
+  | some ops => rfl
+
+/-- and `spellCounts` is `spellCountsWith` on the model's own sub-results (when the three matchings exist) -/
+theorem spellCounts_eq_with (input pred target : List (List Nat)) (mit mip mpt : List (Nat × Nat))
+    (ops : List (EKind × Nat × Nat))
+    (h1 : matchWords (splitAsciiWs input.flatten) (splitAsciiWs target.flatten) = some mit)
+    (h2 : matchWords (splitAsciiWs input.flatten) (splitAsciiWs pred.flatten) = some mip)
+    (h3 : matchWords (splitAsciiWs pred.flatten) (splitAsciiWs target.flatten) = some mpt)
+    (h4 : editOperations { swap := false, sid := true } input pred = some ops) :
+    spellCounts input pred target =
+      spellCountsWith input pred target { mit := mit, mip := mip, mpt := mpt, ops := ops } := by
+  unfold spellCounts spellCountsWith
+  simp only [h1, h2, h3, groupWords_eq_with, h4, Option.bind_some]
+
+/-- the model's own sub-results are admissible -/
+theorem spellSubOk_own (input pred target : List (List Nat)) (mit mip mpt : List (Nat × Nat))
+    (ops : List (EKind × Nat × Nat))
+    (h1 : matchWords (splitAsciiWs input.flatten) (splitAsciiWs target.flatten) = some mit)
+    (h2 : matchWords (splitAsciiWs input.flatten) (splitAsciiWs pred.flatten) = some mip)
+    (h3 : matchWords (splitAsciiWs pred.flatten) (splitAsciiWs target.flatten) = some mpt)
+    (h4 : editOperations { swap := false, sid := true } input pred = some ops) :
+    spellSubOk input pred target { mit := mit, mip := mip, mpt := mpt, ops := ops } = true := by
+  unfold spellSubOk
+  simp only [C18.matchWords_accepted _ _ _ h1, C18.matchWords_accepted _ _ _ h2, C18.matchWords_accepted _ _ _ h3,
+    C12.editOperations_accepted _ _ _ _ h4, Bool.and_self]
+
+/-- **never panics, for EVERY admissible script**: on whitespace-clean texts the closing assertion of `_group_words`
+holds whatever optimal script `edit::operations` returned.  (`scriptAccept` also accepts scripts that are not
+forward traces of the matrix — e.g. two replacements recorded at the same input position, the second of which
+`applyScript` treats as an insertion; the proof follows `applyScript` and uses the optimality `length = distance`
+to exclude the degenerate steps that would disturb the whitespace count: Lemmas/GroupWordsWithL.lean.) -/
+theorem groupWordsWith_total (input pred : List (List Nat)) (hi : CleanB input = true) (hp : CleanB pred = true)
+    (ops : List (EKind × Nat × Nat)) (ha : scriptAccept { swap := false, sid := true } input pred ops = true)
+    (matching : List Nat) : (groupWordsWith ops input pred matching).isSome = true :=
+  groupWordsWith_isSome input pred hi hp ops ha matching
+
+/-- hence the spelling counts computed from admissible sub-results are always defined -/
+theorem spellCountsWith_total (input pred target : List (List Nat)) (hi : CleanB input = true) (hp : CleanB pred = true)
+    (sub : SpellSub) (hs : spellSubOk input pred target sub = true) :
+    (spellCountsWith input pred target sub).isSome = true := by
+  have ha : scriptAccept { swap := false, sid := true } input pred sub.ops = true := by
+    unfold spellSubOk at hs
+    simp only [Bool.and_eq_true] at hs
+    exact hs.2
+  obtain ⟨c, ec⟩ := Option.isSome_iff_exists.mp
+    (groupWordsWith_total input pred hi hp sub.ops ha (sub.mpt.map Prod.fst))
+  simp only [spellCountsWith, ec, Option.isSome_some]
+
+/-- non-vacuity: an accepted script that is NOT the backtrace's answer and not even a forward trace of the matrix
+("bb b" → "aabb": two replacements recorded at input position 0 — `applyScript` treats the second as an insertion —
+and the deleted space): the theorem covers it, the two input words are merged into one group -/
+example : scriptAccept { swap := false, sid := true } [[98], [98], sp, [98]] [[97], [97], [98], [98]]
+      [(.replace, 0, 1), (.replace, 0, 1), (.delete, 2, 2)] = true ∧
+    editOperations { swap := false, sid := true } [[98], [98], sp, [98]] [[97], [97], [98], [98]] ≠
+      some [(.replace, 0, 1), (.replace, 0, 1), (.delete, 2, 2)] ∧
+    groupWordsWith [(.replace, 0, 1), (.replace, 0, 1), (.delete, 2, 2)]
+      [[98], [98], sp, [98]] [[97], [97], [98], [98]] [0] = some [1, 0] := by decide
 
 /-! ### non-vacuity -/
 
